@@ -129,6 +129,7 @@ def run(R, ctx):
     increase_size_table(R, ctx)
     reset_rules(R, ctx)
     new_table(R, ctx)
+    reset_seeding(R, ctx)
     who_writes(R, ctx)
     # the rotation decision is taken per call of the record sink: a record stays whole (and is counted once) only if it reaches the
     # sink in ONE call, line ending included; decided by the emission table (shared with R01.1)
@@ -431,3 +432,28 @@ def who_writes(R, ctx):
         R.check('R08.6', f"writer:{root_fn(w)}", only_called_from(ctx.cg, root_fn(w), set(allowed)), "expected writer of current_size (or a private helper of one)", f"unexpected function writing current_size: {w}", where=f.bodies[w].loc())
     if not writers:
         raise CheckError('no writer of current_size found')
+
+
+def reset_seeding(R, ctx, rule='R08.5'):
+    """reset() is the one place where two States exist at once.  The size counter is seeded from the file's length when a file is opened for
+    appending; while the OLD state is alive its BufWriter may still hold bytes for the very same file, so nothing may open a log file or read
+    its length before the old state has been replaced (= dropped = flushed).  Today the new state is built unopened and opens lazily."""
+    b = ctx.body(r'^writers::file_log_writer::state_handle::StateHandle::reset$')
+    repl = [bb for bb in sorted(b.normal_blocks()) for s in b.blocks[bb]['stmts'] if s['k'] == 'assign' and s['place']['p'] and s['place']['p'][-1]['k'] == 'deref' and
+            'state::State' in b.local_ty(s['place']['l'])]
+    repl += [bb for bb in sorted(b.normal_blocks()) if b.blocks[bb]['term']['k'] == 'drop' and b.blocks[bb]['term']['place']['p'] and 'state::State' in b.blocks[bb]['term']['ty'] and
+             'Guard' not in b.blocks[bb]['term']['ty']]
+    repl += [bb for bb, t in b.calls() if re.search(r'^std::mem::(replace|swap)', callee_name(t)) and any('state::State' in (a.get('ty') or '') or True for a in t['args']) and
+             'state::State' in ' '.join(t['callee'].get('targs') or [])]
+    if not repl:
+        raise CheckError(f"{rule}: replacement of the state in StateHandle::reset not found (form not recognised)")
+    FORBID = r'^std::fs::OpenOptions::open$|^std::fs::File::(create|create_new|open)$|^std::fs::Metadata::len$|^std::fs::rename$'
+    sites = ctx.cg.call_sites_reaching(b, lambda n, t: bool(re.search(FORBID, n)))
+    bad = None
+    for (bb, callee, kind) in sites:
+        if any(C.path_exists(b, bb, r) for r in repl if r != bb):
+            bad = f"{b.loc(bb)}: {callee} opens a log file / reads its length while the old state (whose BufWriter may still hold records for the same file) is alive"
+            break
+    R.check(rule, f"{b.path}|no-open-before-old-state-dropped", not bad, f"{len(sites)} file-opening call site(s) in reset, none before the old state is replaced ({len(repl)} replacement site(s))",
+            f"{bad}: with append the size counter is seeded from a length that lacks the old writer's buffered bytes (records are then appended to a file beyond the limit), "
+            "and records logged before the reset reach the file after content written through the new writer", where=b.loc())
